@@ -85,7 +85,25 @@ NOT_YET = "check not built yet (work in progress; see DESIGN.md section 6 for th
 NA = {}
 
 
+def discover():
+    """modules may carry their own manifest text: MANIFEST = {"Cxx": dict(engine=..., category=..., design_ref=...,
+    technique=..., text=..., note=...)}"""
+    import importlib
+    import sys
+    sys.path.insert(0, os.path.join(ROOT, "lib"))
+    for fn in sorted(os.listdir(os.path.join(ROOT, "lib"))):
+        if fn.startswith("p_") and fn.endswith(".py"):
+            try:
+                mod = importlib.import_module(fn[:-3])
+            except Exception as ex:
+                print("skip", fn, ex)
+                continue
+            for pid, d in getattr(mod, "MANIFEST", {}).items():
+                CHECKS.setdefault(pid, d)
+
+
 def main():
+    discover()
     props = [json.loads(l) for l in open(os.path.join(ROOT, "properties.jsonl"))]
     hooks_commits = []
     try:
